@@ -1586,6 +1586,8 @@ fn pvp_games(e: &mut Exec, rng: &mut Rng, count: usize, shard: usize, shards: us
             continue;
         }
         let line = MINIATURES[i % MINIATURES.len()];
+        let mut own = Rng(rng.0 ^ (i as u64 + 1).wrapping_mul(0x9E3779B97F4A7C15));
+        let rng = &mut own;
         let mut g = Game::new(0);
         let mut inputs: Vec<String> = vec![];
         for mv in line.split_whitespace() {
@@ -2260,6 +2262,7 @@ pub fn run(kv: &Args) {
                 if i % shards != shard {
                     continue;
                 }
+                let mut rng = Rng(seed.wrapping_mul(7907).wrapping_add(i as u64));
                 let mut inputs: Vec<String> = vec![];
                 for _ in 0..(24 + rng.below(16)) {
                     let base = POOL[rng.below(POOL.len())].to_string();
